@@ -1,6 +1,6 @@
 """C11 - cell boundary is a well-formed ring around the cell centre."""
 import math
-from .. import core, gen, spec, geo
+from .. import bulk, core, gen, spec, geo
 
 LEVEL = "proof"
 
@@ -107,7 +107,9 @@ def run(run):
             corners[key] = cs
         if abs(lons[0]) > 170 or touches_pole:
             run.nontrivial.add((c, n, closed))
-    run.rule = ("cells: lookups on the antimeridian and at / next to both poles at every resolution, cells 1e-6 .. 9e-3 degrees from a pole on the antimeridian and on the internal frame's branch cut (r = 10..29), all base cells, quintants, random cells to r=29; "
+    # bulk: explicit subdivision counts at and beyond 2^16 (rings of 3*10^5 .. 10^6 points): exactly 5n (+1) points, same as the model
+    bulk.check(run, bulk.boundary_requests(run), "cell_to_boundary (bulk)")
+    run.rule = ("rings with 65535..70000 (thorough: ..200000) segments per edge on resolution 28/29 and random cells (point count and text hash vs the model); cells: lookups on the antimeridian and at / next to both poles at every resolution, cells 1e-6 .. 9e-3 degrees from a pole on the antimeridian and on the internal frame's branch cut (r = 10..29), all base cells, quintants, random cells to r=29; "
                 "x closed/open ring x subdivision n in {1, 2|3|7, 5|16|64, default}; checks: length, closure, finite coordinates, latitude range, counter-clockwise (positive spherical area), "
                 "centre inside (independent winding test), 180-degree longitude window unless the cell touches a pole, corner points identical across n; "
                 "non-trivial = distinct (cell, n, closed) cases on the antimeridian or touching a pole")
